@@ -254,7 +254,7 @@ def CallerInv (cfg : JwksSet) (s : State) (m : MState) (c : Cid) : Prop :=
    | .atLock seen => (m.callers c).owned = 0 ∧ (m.callers c).hit = false ∧ cacheAns cfg.skipRemoteCheck seen (s.callers c).tok = .miss
    | .atSelect g seen =>
        (m.callers c).hit = false ∧ cacheAns cfg.skipRemoteCheck seen (s.callers c).tok = .miss ∧ g < s.nf ∧
-       (m.callers c).stale g = false
+       (m.callers c).stale g = false ∧ (m.callers c).asked g = false
    | .done o => DoneOK s (s.callers c).tok (s.callers c).live o)
 
 structure Inv (cfg : JwksSet) (s : State) (m : MState) : Prop where
@@ -308,7 +308,7 @@ theorem callerInv_congr {cfg : JwksSet} {s s' : State} {m m' : MState} {c : Cid}
     | atLock seen => simpa [hpc] using h4
     | atSelect g seen =>
       simp only [hpc] at h4 ⊢
-      exact ⟨h4.1, h4.2.1, Nat.lt_of_lt_of_le h4.2.2.1 hnf, h4.2.2.2⟩
+      exact ⟨h4.1, h4.2.1, Nat.lt_of_lt_of_le h4.2.2.1 hnf, h4.2.2.2.1, h4.2.2.2.2⟩
     | done o =>
       simp only [hpc] at h4 ⊢
       cases o with
@@ -333,7 +333,7 @@ theorem acceptJustified_of {m : MState} {mc : MCaller} {f : Fid} {ks : List JWK}
 
 theorem rejectJustified_of {m : MState} {mc : MCaller} {f : Fid} {ks : List JWK}
     (hf : f < m.nf) (hk : okKeys m f = some ks)
-    (ha : (mc.stale f = false ∧ refAccepts ks mc.tok = false) ∨ namedKeyRejects m.skip ks mc.tok = true) : rejectJustified m mc = true := by
+    (ha : (mc.asked f = false ∧ refAccepts ks mc.tok = false) ∨ namedKeyRejects m.skip ks mc.tok = true) : rejectJustified m mc = true := by
   unfold rejectJustified
   rw [List.any_eq_true]
   refine ⟨f, List.mem_range.mpr hf, ?_⟩
@@ -342,7 +342,7 @@ theorem rejectJustified_of {m : MState} {mc : MCaller} {f : Fid} {ks : List JWK}
   · simp [hk, h]
 
 theorem fetchErrJustified_of {m : MState} {mc : MCaller} {f : Fid} {k : EndKind}
-    (hf : f < m.nf) (hs : mc.stale f = false) (hk : failedWith m f k = true) : fetchErrJustified m mc k = true := by
+    (hf : f < m.nf) (hs : mc.asked f = false) (hk : failedWith m f k = true) : fetchErrJustified m mc k = true := by
   unfold fetchErrJustified
   rw [List.any_eq_true]
   exact ⟨f, List.mem_range.mpr hf, by simp [hs, hk]⟩
@@ -601,7 +601,7 @@ theorem inv_wake {c : Cid} {viaCtx : Bool} (hI : Inv cfg s m)
   unfold CallerInv at hC
   rw [hpc] at hC
   simp only [ne_eq, reduceCtorEq, not_false_eq_true, forall_const] at hC
-  obtain ⟨hst, hfin, ⟨htok, hcan, hstale⟩, hhit, hmiss, hg, hsg⟩ := hC
+  obtain ⟨hst, hfin, ⟨htok, hcan, hstale⟩, hhit, hmiss, hg, hsg, hag⟩ := hC
   replace hst : (m.callers c).started = true := by rw [hst]; simp
   -- common tail: the call finishes with outcome `o`, which the monitor accepts
   have tail : ∀ o, judge m c o = none → DoneOK s (s.callers c).tok (s.callers c).live o →
@@ -662,7 +662,7 @@ theorem inv_wake {c : Cid} {viaCtx : Bool} (hI : Inv cfg s m)
           unfold judge
           simp only [hst, hfin, hhit]
           have : rejectJustified m (m.callers c) = true :=
-            rejectJustified_of (by rw [hI.nf]; exact hg) hok (Or.inl ⟨hsg, by rw [htok]; exact hra⟩)
+            rejectJustified_of (by rw [hI.nf]; exact hg) hok (Or.inl ⟨hag, by rw [htok]; exact hra⟩)
           simp [this]
         | badSig =>
           simp only [hr, classify_badSig, Option.some.injEq, Prod.mk.injEq] at hx hra
@@ -671,7 +671,7 @@ theorem inv_wake {c : Cid} {viaCtx : Bool} (hI : Inv cfg s m)
           unfold judge
           simp only [hst, hfin, hhit]
           have : rejectJustified m (m.callers c) = true :=
-            rejectJustified_of (by rw [hI.nf]; exact hg) hok (Or.inl ⟨hsg, by rw [htok]; exact hra⟩)
+            rejectJustified_of (by rw [hI.nf]; exact hg) hok (Or.inl ⟨hag, by rw [htok]; exact hra⟩)
           simp [this]
       · rename_i k hs
         rw [hs] at hsig
@@ -691,7 +691,7 @@ theorem inv_wake {c : Cid} {viaCtx : Bool} (hI : Inv cfg s m)
           unfold failedWith
           rw [hI.res, hres]
           simp [resOf, hk1]
-        have : fetchErrJustified m (m.callers c) k = true := fetchErrJustified_of (by rw [hI.nf]; exact hg) hsg hfw
+        have : fetchErrJustified m (m.callers c) k = true := fetchErrJustified_of (by rw [hI.nf]; exact hg) hag hfw
         simp [this, hk2]
 
 
@@ -716,8 +716,22 @@ theorem mstep_fetchEnd_ok {m : MState} {f : Fid} {a : Option Answer} (h1 : m.beg
     mstep m (.fetchEnd f a) = { m with res := upd m.res f (some (endOf a)) } := by
   simp [mstep, h1, h2]
 
-theorem inv_enter {c : Cid} (hI : Inv cfg s m)
-    (hx : exec fixedFacts GenJwks.logic cfg s (.enter c) = some (s', obs)) : Inv cfg s' (mrun m obs) := by
+/-- the call turns to the endpoint: only the monitor's snapshot `asked` of that call changes -/
+theorem inv_ask {c : Cid} {seen : List JWK} (hI : Inv cfg s m) (hpc : (s.callers c).pc = .atLock seen) :
+    Inv cfg s (mstep m (.ask c)) := by
+  simp only [mstep]
+  refine inv_caller_update hI c rfl rfl (fun _ _ => rfl) (fun c' h => by simp [upd, h]) ?_ ?_
+  · intro f hf ho
+    have := hI.owner f hf
+    rw [ho, hpc] at this
+    exact this.elim
+  · have hC := hI.callers c
+    unfold CallerInv at hC ⊢
+    rw [hpc] at hC ⊢
+    simpa [upd] using hC
+
+theorem inv_enter_core {c : Cid} (hI : Inv cfg s m) (hask : (m.callers c).asked = m.announced)
+    (hx : exec fixedFacts GenJwks.logic cfg s (.enter c) = some (s', Obs.ask c :: obs)) : Inv cfg s' (mrun m obs) := by
   simp only [exec] at hx
   split at hx
   case h_2 => simp at hx
@@ -743,26 +757,27 @@ theorem inv_enter {c : Cid} (hI : Inv cfg s m)
       List.append_nil] at hx
     cases hinf : s.inflight with
     | some g =>
-      simp only [hinf, Option.isNone_some, Bool.false_eq_true, if_false, hI.noCrash, List.nil_append, Option.some.injEq, Prod.mk.injEq] at hx
+      simp only [hinf, Option.isNone_some, Bool.false_eq_true, if_false, hI.noCrash, List.nil_append, Option.some.injEq, Prod.mk.injEq,
+        List.cons.injEq, true_and] at hx
       obtain ⟨rfl, rfl⟩ := hx
       simp only [mrun_cons, mrun_nil, mstep]
       obtain ⟨hgl, hgu⟩ := hI.infl g hinf
+      have hna : m.announced g = false := by rw [hI.ann]; simp; omega
       refine inv_caller_update hI c (by simp [hinf, hI.noCrash]) rfl (fun c' h => by simp [upd, h]) (fun _ _ => rfl) ?_ ?_
       · intro _ _ _; simp [upd]
       · unfold CallerInv
         simp only [upd_same, hst, hfin, htok, hcan, hhit, hmiss]
         simp
-        refine ⟨hstale, hgl, ?_⟩
+        refine ⟨hstale, hgl, ?_, by rw [hask]; exact hna⟩
         cases hsg : (m.callers c).stale g with
         | false => rfl
         | true =>
           have := hstale g hsg
-          rw [hI.ann] at this
+          rw [hna] at this
           simp at this
-          omega
     | none =>
       simp only [hinf, Option.isNone_none, if_true, hI.noCrash, Bool.false_eq_true, if_false, List.append_assoc, List.cons_append, List.nil_append,
-        Option.some.injEq, Prod.mk.injEq] at hx
+        Option.some.injEq, Prod.mk.injEq, List.cons.injEq, true_and] at hx
       obtain ⟨rfl, rfl⟩ := hx
       have hao : anyOpen m = false := anyOpen_false (fun g hg => by
         rw [hI.nf] at hg
@@ -849,18 +864,36 @@ theorem inv_enter {c : Cid} (hI : Inv cfg s m)
           unfold CallerInv
           simp only [upd_same, hst, hfin, htok, hcan, hhit, hmiss]
           simp
-          refine ⟨hstale, ?_⟩
+          have hna : m.announced s.nf = false := by rw [hI.ann, hfr.2]; simp
+          refine ⟨hstale, ?_, by rw [hask]; exact hna⟩
           cases hsg : (m.callers c').stale s.nf with
           | false => rfl
           | true =>
             have := hstale _ hsg
-            rw [hI.ann, hfr.2] at this
+            rw [hna] at this
             simp at this
         · refine callerInv_congr (hI.callers c') (by simp [upd, hc]) (by simp [upd, hc]) rfl (by simp) ?_ (fun _ h => h)
           intro f hf _
           have hf' : f ≠ s.nf := by omega
           simp [upd, hf']
 
+
+theorem inv_enter {c : Cid} (hI : Inv cfg s m)
+    (hx : exec fixedFacts GenJwks.logic cfg s (.enter c) = some (s', obs)) : Inv cfg s' (mrun m obs) := by
+  have hshape : ∃ seen obs', (s.callers c).pc = .atLock seen ∧ obs = Obs.ask c :: obs' := by
+    simp only [exec] at hx
+    split at hx
+    · rename_i seen hpc
+      refine ⟨seen, ?_⟩
+      repeat' split at hx
+      all_goals first
+        | (simp at hx; done)
+        | exact ⟨_, hpc, (Prod.mk.inj (Option.some.inj hx)).2.symm⟩
+    · simp at hx
+  obtain ⟨seen, obs', hpc, rfl⟩ := hshape
+  rw [mrun_cons]
+  have hask : ((mstep m (.ask c)).callers c).asked = (mstep m (.ask c)).announced := by simp [mstep]
+  exact inv_enter_core (inv_ask hI hpc) hask hx
 
 theorem upd_upd {α : Type} (t : Nat → α) (i : Nat) (a b : α) : upd (upd t i a) i b = upd t i b := by
   funext j; by_cases h : j = i <;> simp [upd, h]
@@ -1286,17 +1319,19 @@ theorem jwks_cancel_isolation :
     rw [hc] at this
     exact this.2.2.2
 
-/-- freshness: the request a call waits for had not been announced (`inflight.done`) when the call started, and it is either
+/-- freshness: the request a call waits for had not been announced (`inflight.done`) when the call started, nor when it turned to
+    the endpoint (`ask`, the instant in front of `keysFromRemote`'s critical section), and it is either
     still the in-flight one or completely finished (result published, signalled and released in one step) -/
 theorem jwks_fresh (c g : Nat) (seen : List JWK) (hc : (s.callers c).pc = .atSelect g seen) :
-    ((mrun { skip := cfg.skipRemoteCheck } obs).callers c).stale g = false ∧ g < s.nf ∧
+    ((mrun { skip := cfg.skipRemoteCheck } obs).callers c).stale g = false ∧
+    ((mrun { skip := cfg.skipRemoteCheck } obs).callers c).asked g = false ∧ g < s.nf ∧
       (s.inflight = some g ∨ ((s.fetches g).upc = 2 ∧ (s.fetches g).sig = (s.fetches g).res)) := by
   have hI := reach_inv cfg hd h
   have := hI.callers c
   unfold CallerInv at this
   rw [hc] at this
-  obtain ⟨_, _, _, _, _, hg, hs⟩ := this
-  refine ⟨hs, hg, ?_⟩
+  obtain ⟨_, _, _, _, _, hg, hs, ha⟩ := this
+  refine ⟨hs, ha, hg, ?_⟩
   by_cases hi : s.inflight = some g
   · exact Or.inl hi
   · have hu := hI.others g hg hi
